@@ -11,8 +11,10 @@
 import MantraDex.Model.System
 import MantraDex.Spec.Ledger
 import MantraDex.Proofs.NumLemmas
+import MantraDex.Proofs.FarmLemmas
 
 set_option linter.unusedSimpArgs false
+set_option linter.unusedVariables false
 
 namespace MantraDex.C06
 open MantraDex
@@ -24,18 +26,18 @@ theorem farm_terms_shape {f : Farm} {uw cw : List (Nat × Nat)} {startFrom until
     ∀ t ∈ terms, startFrom ≤ t.1 ∧ t.1 ≤ until_ ∧ f.startEpoch ≤ t.1 ∧ t.1 < f.endEpoch ∧
       ∃ u tot, lookupW uw t.1 = some u ∧ lookupW cw t.1 = some tot ∧ tot ≠ 0 ∧
         t.2 = f.emissionRate * u / tot ∧ t.2 + f.claimed ≤ f.assetAmount := by
-  sorry
+  exact Farm.farm_terms_shape h
 
 /-- at most one term per epoch -/
 theorem farm_terms_epochs_nodup {f : Farm} {uw cw : List (Nat × Nat)} {startFrom until_ : Nat}
     {terms : List (Nat × Nat)} (h : farmRewardTerms f uw cw startFrom until_ = .ok terms) :
     (terms.map (·.1)).Nodup := by
-  sorry
+  exact Farm.farm_terms_epochs_nodup h
 
 /-- a term never exceeds the epoch's emission when the user's weight is covered by the total (C10) -/
 theorem term_le_emission {rate u tot : Nat} (htot : tot ≠ 0) (hle : u ≤ tot) :
     rate * u / tot ≤ rate := by
-  sorry
+  exact mul_div_le_of_le hle
 
 /-- all ledger entries produced by `calculate_rewards` lie strictly after the claim cursor and at
     or before `until`: an epoch at or before the cursor is never paid (again) -/
@@ -43,14 +45,14 @@ theorem rewards_after_cursor {s : FmState} {env : FmEnv} {lp : Denom} {u : Addr}
     {rc : RewardsCalc} (hl : s.lastClaimed u = some l)
     (h : calculateRewards s env lp u until_ = .ok rc) :
     l ≤ until_ ∧ ∀ t ∈ rc.terms, l < t.2.1 ∧ t.2.1 ≤ until_ := by
-  sorry
+  exact Farm.rewards_after_cursor hl h
 
 /-- claiming again up to the cursor pays nothing; claiming up to an earlier epoch is refused -/
 theorem reclaim_pays_nothing {s : FmState} {env : FmEnv} {lp : Denom} {u : Addr} {l : Nat}
     (hl : s.lastClaimed u = some l) :
     calculateRewards s env lp u l = .ok ⟨[], [], []⟩ ∧
     ∀ until_, until_ < l → ∀ rc, calculateRewards s env lp u until_ ≠ .ok rc := by
-  sorry
+  exact Farm.reclaim hl
 
 /-- an accepted claim moves the cursor to `until` (≤ the current epoch) and never lets a farm's
     `claimed_amount` exceed its funded amount -/
@@ -58,7 +60,7 @@ theorem claim_sets_cursor {s s' : FmState} {env : FmEnv} {sender : Addr} {funds 
     {u : Option Nat} {r : Response} (h : fmClaim s env sender funds u = .ok (s', r)) :
     ∃ cur until_, fmCurrentEpoch s env = .ok cur ∧ until_ ≤ cur ∧ (∀ x, u = some x → until_ = x) ∧
       s'.lastClaimed sender = some until_ ∧ (∀ a, a ≠ sender → s'.lastClaimed a = s.lastClaimed a) := by
-  sorry
+  exact Farm.claim_sets_cursor h
 
 /-- claims never create or remove farms, and only ever increase `claimed_amount`, bounded by the
     funded amount -/
@@ -66,7 +68,7 @@ theorem claim_farms_bounded {s s' : FmState} {env : FmEnv} {sender : Addr} {fund
     {u : Option Nat} {r : Response} (hb : ∀ f ∈ s.farms, f.claimed ≤ f.assetAmount)
     (h : fmClaim s env sender funds u = .ok (s', r)) :
     s'.farms.map (·.id) = s.farms.map (·.id) ∧ ∀ f' ∈ s'.farms, f'.claimed ≤ f'.assetAmount := by
-  sorry
+  exact Farm.claim_farms_bounded hb h
 
 /-- `update_weights` records changes for epoch + 1 only: weights in effect at or before the current
     epoch are untouched (nobody is paid for an epoch before their weight took effect) -/
@@ -75,6 +77,6 @@ theorem update_weights_effect_next_epoch {s s' : FmState} {env : FmEnv} {recv : 
     (hc : fmCurrentEpoch s env = .ok cur)
     (h : updateWeights s env recv lp amount unlocking fill = .ok s') :
     ∀ a d e, e ≤ cur → histGet (s'.hist a d) e = histGet (s.hist a d) e := by
-  sorry
+  exact Farm.update_weights_next_epoch hc h
 
 end MantraDex.C06
